@@ -19,7 +19,7 @@ func init() {
 	register(&CheckDef{
 		ID:    "C11",
 		Level: "exploration",
-		Rule: "every ordered mix of <=3 (quick) / <=4 (thorough) tokens, each slot drawn from: named with automatic number (plain / tagged), named with explicit number from {1,2,3,43,97,257,1000,-1 (an alias of the end marker)}, named declared only by %left, named declared twice (%token <t> X and %token X n, n large or small), named introduced by %left and numbered by a later %token line, character literal from {'+','a','{'} declared by %token / only by %left / only used in a rule; explicit numbers pairwise distinct and distinct from the literal codes present; in-process: every terminal's code (literal = character code, explicit kept, all distinct, none -1); generated Go and TypeScript (every mix in-process, a fixed stride of them compiled/loaded): `const NAME = n` lines and translate(c) evaluated for every c in [-2, max+2]; " +
+		Rule: "every ordered mix of <=3 (quick) / <=4 (thorough) tokens, each slot drawn from: named with automatic number (plain / tagged), named with explicit number from {1,2,3,43,97,257,1000,-1 (an alias of the end marker)}, named declared only by %left, named declared twice (%token <t> X and %token X n, n large or small), named introduced by %left and numbered by a later %token line, character literal from {'+','a','{','é','ü'} declared by %token / only by %left / only used in a rule; explicit numbers pairwise distinct and distinct from the literal codes present; in-process: every terminal's code (literal = character code, explicit kept, all distinct, none -1); generated Go and TypeScript (every mix in-process, a fixed stride of them compiled/loaded): `const NAME = n` lines and translate(c) evaluated for every c in [-2, max+2]; " +
 			"non-trivial = mix with at least two tokens; distinct = distinct mixes",
 		Assumptions: []string{
 			"the proviso of the statement: the user's explicit numbers are distinct from each other and from the codes of the literals used",
@@ -38,7 +38,7 @@ func init() {
 type tokSlot struct {
 	Kind string `json:"kind"` // auto, tagged, num, preconly, twice, lit, litprec, lituse
 	Num  int    `json:"num,omitempty"`
-	Char byte   `json:"char,omitempty"`
+	Char rune   `json:"char,omitempty"`
 }
 
 type c11Case struct {
@@ -54,7 +54,7 @@ func c11Menu() []tokSlot {
 	for _, n := range []int{1, 2, 3, 43, 97, 257, 1000, -1} {
 		m = append(m, tokSlot{Kind: "num", Num: n})
 	}
-	for _, c := range []byte{'+', 'a', '{'} {
+	for _, c := range []rune{'+', 'a', '{', 'é', 'ü'} {
 		m = append(m, tokSlot{Kind: "lit", Char: c}, tokSlot{Kind: "litprec", Char: c}, tokSlot{Kind: "lituse", Char: c})
 	}
 	return m
@@ -63,7 +63,7 @@ func c11Menu() []tokSlot {
 // valid applies the proviso of the statement.
 func (c *c11Case) valid() bool {
 	nums := map[int]bool{}
-	chars := map[byte]bool{}
+	chars := map[rune]bool{}
 	for i, s := range c.Slots {
 		switch s.Kind {
 		case "num", "twice", "precthennum":
@@ -189,7 +189,7 @@ func c11Work(w *Worker) {
 					if w.Mine(idx) {
 						w.Begin(idx, c)
 						if c11Eval(w, c, false) {
-							stride := int64(5)
+							stride := int64(13)
 							if w.Thorough() {
 								stride = 23
 							}
